@@ -738,6 +738,13 @@ pub fn run(run: &'static Run) {
     }
     run.set("hostile_transactions", json!(total));
     pool_request_combinations(run, &deltas);
+    // every transition of the state-graph scenarios is a totality check as well (the engine tags panics with C09): run the
+    // liquidity scenarios of C16 (incl. the testnet history that creates and empties ERG/SYM before it becomes built-in) and
+    // the request / spelling scenarios of C15 here, so that a panic on such a history is reported by this check
+    for sc in crate::props::c16::scenarios(false).into_iter().chain(crate::props::c15::scenarios(false).into_iter().take(2)) {
+        let st = run_scenario(run, &sc, 400_000);
+        run.set(&format!("engine_scenario:{}", sc.name), json!({"depth_bound_completed": st.depth_completed, "unique_states": st.states, "transitions": st.transitions}));
+    }
     child_cases(run, thorough);
     confirm_garbage(run);
     run.sample(json!({"hostile": "swap[MEL/SYM:canonical] 0 of Mel", "calls": ["apply_tx_batch alone / before / after a normal transfer", "seal(None)", "seal(Some(-128))", "seal(Some(127))", "next block", "apply_block"], "oracle": "every call returns (Ok or Err) without panic, overflow, abort or exceeding the watchdog"}));
